@@ -1105,8 +1105,11 @@ where
                 costs[i] = high_cmplt;
                 done[i] = true;
             } else if let Some(hs_noncmplt) = hs_noncmplt {
-                debug_assert!(hs_noncmplt >= costs[i]);
-                costs[i] = hs_noncmplt;
+                // The estimate must never shrink: a complete production can already be
+                // dearer than the current estimates of the incomplete ones.
+                let est = std::cmp::max(hs_noncmplt, hs_cmplt.unwrap_or(0));
+                debug_assert!(est >= costs[i]);
+                costs[i] = est;
             }
         }
         if all_done {
